@@ -144,7 +144,8 @@ class Gen:
         elif k == "addr":
             v = self.fresh("p")
             what = r.pick(["%s.f" % a, "%s.g" % a, "%s.n.f" % a])
-            self.stmt("%s := &%s" % (v, what), accs=[(a, 0)])
+            # &a.f computes an address without touching *a; &a.n.f loads a.n first
+            self.stmt("%s := &%s" % (v, what), accs=[(a, 0)] if ".n." in what else ())
             self.stmt("_ = %s" % v)
             env["ptrs"].append(v)
             self.features.add("interior-pointer")
@@ -419,7 +420,7 @@ class Gen:
         # helpers that start a goroutine inside a callee, handing it an interior pointer or an inner object
         ln = self.L()
         e("func hspawnf(a *S, done chan bool) { go wleakp(&a.f, done) }",
-          "func hspawnf(a *S, done chan bool) { simb.Acc(%d, a, 0); simrt.Go2(%d, wleakp, &a.f, done) }" % (ln, ln))
+          "func hspawnf(a *S, done chan bool) { simrt.Go2(%d, wleakp, &a.f, done) }" % ln)
         ln = self.L()
         e("func hspawnn(a *S, done chan bool) { go wleakp(&a.n.f, done) }",
           "func hspawnn(a *S, done chan bool) { simb.Acc(%d, a, 0); simrt.Go2(%d, wleakp, &a.n.f, done) }" % (ln, ln))
@@ -667,8 +668,8 @@ PATTERNS = [
     ("method-ptr-arg", ["b.Put(a, x)"], []),
     ("closure", ["fn := func() { a.f = x }", "fn()"], []),
     ("closure-param", ["apply(func(o *S) { o.f = x }, a)"], []),
-    ("interior-pointer", ["p := &a.f", "*p = x"], [("a", 0)]),
-    ("interior-pointer-deep", ["p := &a.n.g", "*p = x"], [("a", 0)]),
+    ("interior-pointer", ["p := &a.f", "*p = x"], [("p", 1)]),
+    ("interior-pointer-deep", ["p := &a.n.g", "*p = x"], [("p", 1)]),
     ("map", ['a.m["k"] = x'], [("a", 0), ("a.m", 1)]),
     ("slice", ["a.l[1] = x"], [("a", 0), ("&a.l[0]", 1)]),
     ("append", ["a.l = append(a.l, x)"], [("a", 1)]),
@@ -769,7 +770,8 @@ def focused(seed, idx):
     if share == "spawn-interior":
         e("func publish(a *S, b *S, done chan bool) {")
         w.go_line = g.L()
-        e("\tgo w0(&%s, b, done)" % inner, "\tsimb.Acc(%d, a, 0); simrt.Go3(%d, w0, &%s, b, done)" % (w.go_line, w.go_line, inner))
+        pre = "simb.Acc(%d, a, 0); " % w.go_line if ".n." in inner else ""
+        e("\tgo w0(&%s, b, done)" % inner, "\t%ssimrt.Go3(%d, w0, &%s, b, done)" % (pre, w.go_line, inner))
         e("}")
         e("")
     if share == "spawn-in-callee":
